@@ -6,7 +6,6 @@ hypotheses of the `_partial` theorems of EPV/Props/C07.lean and are printed by t
 
   F07            helpers.numeric_equal / Float.__eq__: `math.isclose(rel_tol=1e-7)` tolerance
   F07-promotion  numeric operands of different types compared without (or with another) promotion
-  F07-lenient    general comparison of a pair that is incomparable by XPath §3.7.1: no XPTY0004
   F07-untyped    xs:untypedAtomic against decimal / float / anyURI: conversion rules of §3.7.2 not followed
   F07-compat     XPath 1.0 / compatibility-mode rules (XPath 2.0 §3.5.2, XPath 1.0 §3.4) not followed
 -/
@@ -142,7 +141,6 @@ def trigGeneral (m : Mode) (op : Op) (L Rr : List Item) : List String :=
   let pairLevel := !m.compat || (m = .v2c && !op.isOrd)
   (if ps.any (fun (a, b) => trigTol false op a b) then ["F07"] else []) ++
   (if pairLevel && ps.any (fun (a, b) => trigPromotion false a b) then ["F07-promotion"] else []) ++
-  (if pairLevel && ps.any (fun (a, b) => trigLenient m op a b) then ["F07-lenient"] else []) ++
   (if pairLevel && ps.any (fun (a, b) => trigUntyped op a b || trigUntypedQN m a b) then ["F07-untyped"] else []) ++
   (if trigCompat m op l r (L.any isNode) (Rr.any isNode) then ["F07-compat"] else [])
 
